@@ -146,8 +146,13 @@ def snapshot(exp):
     loops = {}
     for name, meta in sorted((g._documents.get("DoWhile") or {}).items()):
         loops[name] = _typed(meta.get("state"))
+    try:
+        # the user's variables as the experiment reports them (what interface hooks and restart logic receive)
+        uservars = _typed(g.configuration.get_user_variables())
+    except Exception as e:
+        uservars = {"#raises": type(e).__name__}
     return {"nodes": nodes, "edges": sorted([a, b] for a, b in g.graph.edges()), "conf": conf, "refs": refs,
-            "loops": loops}
+            "loops": loops, "uservars": uservars}
 
 
 def _canonical(text: str):
@@ -216,6 +221,9 @@ def compare(w, l, patched, where, case, ctx):
                             "%s: node %s writer %r loaded %r" % (where, n, w["refs"][n], l["refs"][n]))
     if w["loops"] != l["loops"]:
         raise Violation("loop-state-differs-after-reload", "%s: writer %r loaded %r" % (where, w["loops"], l["loops"]))
+    if w.get("uservars") != l.get("uservars"):
+        raise Violation("user-variables-differ-after-reload", "%s: get_user_variables(): writer %r loaded %r" % (
+            where, w.get("uservars"), l.get("uservars")))
     late = []
     for n in w["nodes"]:
         d = _diff(w["conf"][n], l["conf"][n])
